@@ -392,6 +392,16 @@ def family_wild(tier, seed):
                  "cps": [{"name": "wa", "var": "a", "bins": [{"name": "wab", "kind": "wildarray", "n": n, "pats": [[v, m]]}]}]}
         out.append({"id": "wild/witness/%d" % t, "shapes": {"S": shape},
                     "ops": [{"op": "new", "shape": "S"}, {"op": "sweep", "inst": 1, "seq": [{"a": x} for x in range(16)]}]})
+    # two instances of one class whose wildcard bins differ in a NON-LAST pattern only: separate types, each swept
+    for t, (p1, p2) in enumerate([([[0, 0b1100], [0b0011, 0b0011]], [[0b0100, 0b1100], [0b0011, 0b0011]]),
+                                  ([[1, 1], [2, 6], [8, 8]], [[0, 1], [2, 6], [8, 8]])]):
+        sh = lambda pats: {"cls": "CGW2", "vars": {"a": {"w": 4}},
+                           "cps": [{"name": "w", "var": "a", "bins": [{"name": "wb", "kind": "wild", "pats": pats}]}]}
+        seq = [{"a": x} for x in range(16)]
+        out.append({"id": "wild/twotypes/%d" % t, "shapes": {"S0": sh(p1), "S1": sh(p2)},
+                    "ops": [{"op": "new", "shape": "S0"}, {"op": "new", "shape": "S1"}, {"op": "new", "shape": "S0"},
+                            {"op": "sweep", "inst": 1, "seq": seq}, {"op": "sweep", "inst": 2, "seq": seq},
+                            {"op": "sweep", "inst": 3, "seq": seq[:8]}]})
     # several patterns per bin, strings in three bases, per-sample events
     rnd = random.Random(1920 + seed)
     n = 40 if tier == "quick" else 600
